@@ -17,6 +17,7 @@ EXPLANATION = (
     "(product == product), and the matrix conversion kernels map source to destination in the same linear storage order on both sides (no transposing "
     "iterator); the scalar->matrix kernel writes the scalar to every element; (R4) the conversion dispatchers' fallback arms return Err. "
     "Not decided: int->int narrowing policy, rational/complex conversions, matrix->set (C14)."
+    ' (R5) in the reshape dispatch `match (matrix, shape[0], shape[1])` every arm allocates its output with (rows, cols) = (second, third) pattern position.'
 )
 
 ALLOWED = {
